@@ -102,6 +102,12 @@ def evaluate(case):
                 warnings.simplefilter("ignore")
                 try:
                     krt_in = {k: v[::-1].copy() for k, v in krt.items()} if case.get("kr_desc") else krt
+                    if case.get("helper_kr"):  # the library's own two-phase helper builds the rel-perm table
+                        K = KRS[case["kr"]]
+                        prm = fp.RelPermParams(n_o=K["exps"][0], n_w=K["exps"][1], n_g=K["exps"][2], S_or=K["res"][0],
+                                               S_wc=K["res"][1], S_gc=K["res"][2], k_ro_max=K["ends"][0],
+                                               k_rw_max=K["ends"][1], k_rg_max=K["ends"][2])
+                        krt_in = fp.relative_permeabilities_twophase(prm, 0.1)
                     fl = fp.FlowPropertiesTwoPhase.from_table(tbf, krt_in, rho, 0.1, KRS[case["kr"]].get("sw", 0.1), p_i)
                 except Exception as e:  # noqa: BLE001
                     viol.append(V("from_table/raises", f"{type(e).__name__}: {e}", case=case))
@@ -120,6 +126,12 @@ def evaluate(case):
             if not np.all(np.diff(ms) > 0):
                 viol.append(V("from_table/m-scaled-increasing", "scaled pseudopressure from from_table is not "
                               f"strictly increasing (min step {np.diff(ms).min():.3g})", case=case))
+                break
+            dense = np.unique(np.concatenate([p[1:], p[1:-1] + 0.3 * np.diff(p[1:]), p[1:-1] + 0.7 * np.diff(p[1:])]).astype(float))
+            md = np.asarray(fl.m_scaled_func(dense), dtype=float)
+            if not np.all(np.diff(md) > 0):
+                viol.append(V("from_table/m_scaled_func-increasing", "m_scaled_func of from_table is not strictly increasing "
+                              "between table nodes (two interior points of every cell)", case=case))
                 break
             if on_node and not abs(m_i - 1) <= 1e-12:
                 viol.append(V("from_table/m_i", f"m_i = {m_i!r} at a table node, expected 1", case=case))
@@ -144,10 +156,13 @@ def cases(tier, seed):
     grids = ["uniform", "geometric", "irregular", "integer"]
     out = [{"family": "shipped", "grid": "shipped", "kr": k, "rho": r, "factor": f}
            for k, r, f in itertools.product(range(len(KRS)), range(len(RHOS)), [1.0, 7.0])]
+    out += [{"family": "shipped", "grid": "shipped", "kr": k, "rho": 0, "factor": 1.0, "helper_kr": True} for k in (1, 2)]
     for fam, g, k, r, f in itertools.product(fams, grids, range(len(KRS)), range(len(RHOS)), [1.0, 7.0]):
         out.append({"family": fam, "grid": g, "kr": k, "rho": r, "factor": f, "seed": seed})
         if f == 1.0 and g == "uniform":
             out.append({"family": fam, "grid": g, "kr": k, "rho": r, "factor": f, "seed": seed, "kr_desc": True})
+            if k in (1, 2):  # residual oil / gas saturations > 0
+                out.append({"family": fam, "grid": g, "kr": k, "rho": r, "factor": f, "seed": seed, "helper_kr": True})
     if seed:
         f = round(0.5 + 20 * seed_offset(seed), 3)
         out += [dict(c, factor=f) for c in out if c["factor"] == 7.0 and c["kr"] == 1]
